@@ -14,6 +14,7 @@ import (
 	"fmt"
 	"math/rand"
 	"os"
+	"path/filepath"
 	"reflect"
 	"runtime/debug"
 	"strconv"
@@ -24,7 +25,9 @@ import (
 	"verifharness/mach"
 
 	"github.com/Comcast/sheens/core"
+	"github.com/Comcast/sheens/crew"
 	"github.com/Comcast/sheens/match"
+	"github.com/Comcast/sheens/sio"
 )
 
 type T = enc.T
@@ -796,7 +799,25 @@ func persistCase(id int, a *mach.ASpec, bs match.Bindings, ms []interface{}, sav
 		st := &core.State{NodeName: "n0", Bs: copyBs(bs)}
 		steps := T{}
 		for i, m := range ms {
-			if save[i] {
+			if save[i] && id%3 == 0 {
+				// the single-loop host's way: the state file that sio.Stdio writes, read back by sio.Stdio.Read
+				js, err := json.MarshalIndent(map[string]*crew.Machine{"m": {Id: "m", State: st}}, "", "  ")
+				if err != nil {
+					return steps, "marshal: " + err.Error()
+				}
+				f := filepath.Join(os.TempDir(), "verif-persist-"+strconv.Itoa(os.Getpid())+".json")
+				if err := os.WriteFile(f, js, 0644); err != nil {
+					return steps, "write: " + err.Error()
+				}
+				store := sio.NewStdio(false)
+				store.StateInputFilename = f
+				read, err := store.Read(context.Background())
+				os.Remove(f)
+				if err != nil || read["m"] == nil || read["m"].State == nil {
+					return steps, "read: " + fmt.Sprint(err)
+				}
+				st = read["m"].State
+			} else if save[i] {
 				js, err := json.Marshal(st)
 				if err != nil {
 					return steps, "marshal: " + err.Error()
